@@ -861,9 +861,11 @@ func recordQualifiedReferences(node *lisp.LVal, refs map[string]bool) {
 			refs[pkg+"/"+name] = true
 		}
 	case lisp.LSExpr:
-		if node.IsQuoted() {
-			return
-		}
+		// Recurse into quoted lists as well: a [bracket] list is parsed as a
+		// quoted list, and let/let*/flet/labels bindings are commonly written
+		// with brackets, so `(let ([v (pkg:f)]) ...)` holds a live qualified
+		// reference.  Recording a name that only occurs in real quoted data
+		// merely preserves one more definition.
 		for _, child := range node.Cells {
 			recordQualifiedReferences(child, refs)
 		}
